@@ -37,7 +37,9 @@ Step ==
   /\ LET ln == TraceLog[l] IN
      CASE ln.t = "op" ->
             LET post == IF Fatal(ln) THEN Empty ELSE StateOf(ln) IN
-            /\ Report(OpChecks(Cfg, st, post, ln) \cup MemChecks(Cfg, st, post, ln))
+            /\ LET l1 == OpChecks(Cfg, st, post, ln)
+                   l0 == MemChecks(Cfg, st, post, ln)
+               IN  Report(l1 \cup l0 \cup StrongLeakChecks(l1, l0))
             /\ st' = post
        [] ln.t = "snap" ->
             /\ Report(InvChecks(Cfg, StateOf(ln), ln.can))
